@@ -597,6 +597,11 @@ class DirectionalVariogram(Variogram):
 
         return self._bins.copy()
 
+    @bins.setter
+    def bins(self, bins):
+        # overriding the getter drops the inherited setter: re-attach it
+        Variogram.bins.fset(self, bins)
+
     def to_gstools(self, *args, **kwargs):
         raise NotImplementedError(
             "Exporting DirectinalVariogram is currently not supported."
